@@ -272,6 +272,106 @@ fn check_converse(c: &ConverseCase, st: &mut Stats) -> Verdict {
     Ok(())
 }
 
+/// Source snippets that look like special syntax but are not (or only for the named extensions): under every
+/// subset without those extensions they must read exactly as they do without any extension.
+/// (snippet, extensions that may reinterpret it, is a whole line)
+fn literals() -> Vec<(&'static str, Extensions, bool)> {
+    let none = Extensions::empty();
+    vec![
+        ("@flour{2[- heaped -]cups}", none, false),
+        ("@milk{1[- c -]glass}", none, false),
+        ("#pan{1[- big -]large}", none, false),
+        ("~{5[- c -]min}", Extensions::TIMER_REQUIRES_TIME | Extensions::ADVANCED_UNITS, false),
+        ("@x{1/0-x}", none, false),
+        ("@x{2-x%kg}", none, false),
+        ("@x{1/2-some}", none, false),
+        ("@x{1 1/2cups}", none, false),
+        ("@x{01/2}", none, false),
+        ("@x{.5%kg}", none, false),
+        ("@x{=1%kg}", none, false),
+        ("@x{1\n%kg}", none, false),
+        ("@x{\n}", none, false),
+        ("@salt{1%tsp.}", none, false),
+        ("~-rest{5%min}", Extensions::COMPONENT_MODIFIERS, false),
+        ("~+a{5%min}", Extensions::COMPONENT_MODIFIERS, false),
+        ("~&t{1%min}", Extensions::COMPONENT_MODIFIERS, false),
+        ("@(1)dough{}", none, false),
+        ("#pan(big)", none, false),
+        ("@a{1%kg}(n)(m)", none, false),
+        (">> [mode: steps", none, true),
+        (">> mode]: steps", none, true),
+        (">> []: x", Extensions::MODES, true),
+        ("= = =", none, true),
+        ("> >> k: v", none, true),
+        ("to \u{2212}5 degrees", none, false),
+        ("1/2 cup of 2-3 things", Extensions::INLINE_QUANTITIES, false),
+    ]
+}
+
+#[derive(Debug, Clone, Serialize, Deserialize)]
+pub struct LiteralCase {
+    pub raw: RawRecipe,
+    pub literal: u8,
+    pub pos: u16,
+}
+
+fn check_literal(c: &LiteralCase, st: &mut Stats) -> Verdict {
+    let lits = literals();
+    let (lit, may, line) = lits[c.literal as usize % lits.len()];
+    let mut m = build(&c.raw, false);
+    // keep the recipe free of front matter so that `>>` lines are metadata lines
+    if line {
+        m.front = None;
+        m.blocks.retain(|b| !matches!(b, BlockM::StepLine(_)));
+    }
+    let (base_src, _) = print_recipe(&m, &c.raw.tape);
+    let base_src = base_src.replace("\r\n", "\n");
+    let block = if line { format!("{lit}\n\n") } else { format!("Take {lit} now.\n\n") };
+    // insert at a block boundary
+    let mut points = vec![0usize];
+    let bytes = base_src.as_bytes();
+    for i in 0..base_src.len().saturating_sub(1) {
+        if bytes[i] == b'\n' && bytes[i + 1] == b'\n' {
+            points.push(i + 2);
+        }
+    }
+    // (with a front matter: appended, the front matter has to stay at the top)
+    let src = if m.front.is_some() {
+        format!("{}\n\n{block}", base_src.trim_end_matches('\n'))
+    } else {
+        let at = points[(c.pos as usize * points.len()) >> 16];
+        format!("{}{block}{}", &base_src[..at], &base_src[at..])
+    };
+    st.class(lit);
+    st.nontrivial(&src);
+    st.sample(|| json!({"literal": lit, "source": src}));
+    let base = match guard(|| parser(EXT_EMPTY, 1).parse(&src)) {
+        Ok(r) => r,
+        Err(p) => vbail!("c02.panic", "parse panicked: {p}; source {src:?}"),
+    };
+    let base_img = result_image(&base);
+    for idx in 0..N_EXT {
+        if ALL_EXTS[idx].intersects(may) {
+            continue;
+        }
+        let res = match guard(|| parser(idx, 1).parse(&src)) {
+            Ok(r) => r,
+            Err(p) => vbail!("c02.panic", "parse panicked under {}: {p}; source {src:?}", ext_name(idx)),
+        };
+        let img = result_image(&res);
+        vensure!(
+            img == base_img,
+            "c02.literal-differs",
+            "`{lit}` is not special syntax of {}, yet the result differs from the one without extensions\n with: {}\n without: {}\n source {src:?}",
+            ext_name(idx),
+            truncate(&img, 1500),
+            truncate(&base_img, 1500)
+        );
+        meta_only_agrees(idx, &src, &res, "c02.metadata-only-differs")?;
+    }
+    Ok(())
+}
+
 fn converse_strategy() -> impl Strategy<Value = ConverseCase> {
     (raw_recipe(Some(false)), 0u8..8, any::<u8>(), any::<u16>()).prop_map(|(raw, sample, variant, pos)| ConverseCase { raw, sample, variant, pos })
 }
@@ -284,6 +384,9 @@ pub fn run(tier: Tier) -> i32 {
         assert!(BUNDLED.find_unit(w).is_none(), "text word {w} is a unit key");
     }
     run.replay_regressions(&|part, j| {
+        if part == "literals" {
+            return check_literal(&case_from::<LiteralCase>(j)?, &mut Stats::default());
+        }
         if part.starts_with("converse") {
             check_converse(&case_from::<ConverseCase>(j)?, &mut Stats::default())
         } else {
@@ -310,10 +413,23 @@ pub fn run(tier: Tier) -> i32 {
             check_converse,
         );
     }
+    if !run.failed() {
+        run_prop(
+            &mut run,
+            "literals",
+            "snippets that resemble special syntax without being it (a comment glued between number and word, half ranges, modifier characters after `~`, one-sided bracket keys, odd section and text lines, ...) placed in a generated Core recipe; under every subset that lacks the extensions which may reinterpret the snippet (for most: all 192) the JSON image and ordered diagnostics equal those without extensions; every case is non-trivial",
+            || (raw_recipe(Some(false)), any::<u8>(), any::<u16>()).prop_map(|(raw, literal, pos)| LiteralCase { raw, literal, pos }),
+            tier.pick(1_500, 100_000),
+            check_literal,
+        );
+    }
     run.finish()
 }
 
 pub fn replay(part: &str, j: &serde_json::Value) -> Verdict {
+    if part == "literals" {
+        return check_literal(&case_from::<LiteralCase>(j)?, &mut Stats::default());
+    }
     if part.starts_with("converse") {
         check_converse(&case_from::<ConverseCase>(j)?, &mut Stats::default())
     } else {
